@@ -27,10 +27,10 @@ SOLVABLE_BY_ACTIONS = os.environ.get("VERIF_FLATPACK_BY_ACTIONS", "1") == "1"
 class A(Adapter):
     name = "flat_pack"
     lean = "flat_pack"
-    serves = {"C04", "C05", "C06", "C08", "C09", "C10", "C11", "C12"}
+    serves = {"C01", "C04", "C05", "C06", "C08", "C09", "C10", "C11", "C12"}
     terminate_on_invalid = False
     max_steps = 30
-    ops = ("state", "step", "judge", "instance")
+    ops = ("state", "step", "judge", "instance", "bounds")
 
     quick = True
 
